@@ -1,6 +1,7 @@
 import Cppcms.Common
 import Cppcms.C04.Model
 import Cppcms.C04.Spec
+import Cppcms.C04.Uri
 /-! Line-protocol driver for C04.
 
 `C flags entities tags props preds input table` : run the model of validate / validate_and_filter_if_invalid /
@@ -94,10 +95,40 @@ def parseTable (s : String) : Option (List (Nat × Bytes × Bool)) :=
     | [i, v, b] => do some ((← i.toNat?), (← parseHex v), b == "1")
     | _ => none
 
-def oracleOf (tbl : List (Nat × Bytes × Bool)) (dflt : Bool) (id : Nat) (v : Bytes) : Bool :=
+def tableOf (tbl : List (Nat × Bytes × Bool)) (dflt : Bool) (id : Nat) (v : Bytes) : Bool :=
   match tbl.find? (fun t => t.1 == id && t.2.1 == v) with
   | some t => t.2.2
   | none => dflt
+
+/-- `id:type:arghex,…` → (id, type) -/
+def parsePreds (s : String) : List (Nat × String) :=
+  (listOf s ",").filterMap fun t =>
+    match t.splitOn ":" with
+    | i :: ty :: _ => i.toNat?.map fun n => (n, ty)
+    | _ => none
+
+def uriKind : String → Option Uri.Kind
+  | "uri" => some .both
+  | "absuri" => some .full
+  | "reluri" => some .relative
+  | _ => none
+
+/-- regex predicates: recorded verdicts; URI predicates: the model of `uri_parser`, with the scheme regex verdicts
+(recorded under id + 1000) as its parameter -/
+def oracleP (preds : List (Nat × String)) (tbl : List (Nat × Bytes × Bool)) (dflt : Bool) (id : Nat) (v : Bytes) : Bool :=
+  match (preds.find? (·.1 == id)).bind (fun p => uriKind p.2) with
+  | some k => Uri.validator k (tableOf tbl dflt (id + 1000)) v
+  | none => tableOf tbl dflt id v
+
+/-- every recorded verdict of a URI validator must be what the URI model computes -/
+def uriConsistent (preds : List (Nat × String)) (tbl : List (Nat × Bytes × Bool)) : Option (Nat × Bytes) :=
+  (tbl.find? fun t =>
+    match (preds.find? (·.1 == t.1)).bind (fun p => uriKind p.2) with
+    | some k => Uri.validator k (tableOf tbl false (t.1 + 1000)) t.2.1 != t.2.2 ||
+                Uri.validator k (tableOf tbl true (t.1 + 1000)) t.2.1 != t.2.2
+    | none => false).map fun t => (t.1, t.2.1)
+
+def oracleOf (tbl : List (Nat × Bytes × Bool)) (dflt : Bool) (id : Nat) (v : Bytes) : Bool := tableOf tbl dflt id v
 
 def optOut : Option Bytes → String
   | none => "1:-"
@@ -107,15 +138,15 @@ def isMarkupTy : Ty → Bool
   | .plain => false
   | _ => true
 
-def runCase (d : RuleDesc) (tbl : List (Nat × Bytes × Bool)) (E : Bool → Option Enc) (dflt : Bool) (x : Bytes) : String :=
-  let r := mkRules d (oracleOf tbl dflt)
+def runCase (d : RuleDesc) (preds : List (Nat × String)) (tbl : List (Nat × Bytes × Bool)) (E : Bool → Option Enc) (dflt : Bool) (x : Bytes) : String :=
+  let r := mkRules d (oracleP preds tbl dflt)
   let e := E dflt
   let frm := filterE e r .remove x
   let fesc := filterE e r .escape x
   s!"v={boolStr (validateE e r x)} rm={optOut (validateAndFilterE e r .remove x)} esc={optOut (validateAndFilterE e r .escape x)} frm={toHex frm} fesc={toHex fesc} vrm={boolStr (validateE e r frm)} vesc={boolStr (validateE e r fesc)}"
 
-def stats (d : RuleDesc) (tbl : List (Nat × Bytes × Bool)) (e : Option Enc) (x0 : Bytes) : String :=
-  let r := mkRules d (oracleOf tbl false)
+def stats (d : RuleDesc) (preds : List (Nat × String)) (tbl : List (Nat × Bytes × Bool)) (e : Option Enc) (x0 : Bytes) : String :=
+  let r := mkRules d (oracleP preds tbl false)
   let x := match e with
     | some en => if en.valid x0 then x0 else en.prefilter x0
     | none => x0
@@ -138,13 +169,13 @@ def missing (d : RuleDesc) (tbl : List (Nat × Bytes × Bool)) (ms : List Spec.M
         | _, _ => none
     | _ => []
 
-def judge (d : RuleDesc) (tbl : List (Nat × Bytes × Bool)) (x : Bytes) : String :=
+def judge (d : RuleDesc) (preds : List (Nat × String)) (tbl : List (Nat × Bytes × Bool)) (x : Bytes) : String :=
   let ms := Spec.lenientMarkup x
   let miss := (missing d tbl ms).eraseDups
   if !miss.isEmpty then
     "miss " ++ ",".intercalate (miss.map fun p => s!"{p.1}:{toHex p.2}")
   else
-    let r := mkRules d (oracleOf tbl false)
+    let r := mkRules d (oracleP preds tbl false)
     match ms.find? (fun m => !Spec.allowed r m) with
     | none => s!"1 {ms.length}"
     | some m => "0 " ++ (reprStr m).replace "\n" " "
@@ -152,20 +183,30 @@ def judge (d : RuleDesc) (tbl : List (Nat × Bytes × Bool)) (x : Bytes) : Strin
 def step (_ : Unit) (line : String) : Unit × String :=
   let r : String :=
     match words line with
-    | ["C", fl, es, ts, ps, _, x, tb, eb] =>
+    | ["U", k, _, v, tb] =>
+      match uriKind k, parseHex v, parseTable tb with
+      | some kind, some v, some tbl =>
+        let a := Uri.validator kind (tableOf tbl false 1000) v
+        let b := Uri.validator kind (tableOf tbl true 1000) v
+        if a == b then boolStr a else "oracle-miss"
+      | _, _, _ => "bad-op"
+    | ["C", fl, es, ts, ps, pr, x, tb, eb] =>
       match parseDesc fl es ts ps, parseHex x, parseTable tb, parseEnc eb, parseFlags fl with
       | some d, some x, some tbl, some eo, some (_, repl) =>
         let rp := repl.getD 0
         let E : Bool → Option Enc := fun dflt => eo.map fun o => encOf o rp dflt
+        let preds := parsePreds pr
         if !(eo.map (encConsistent · rp)).getD true then "enc-model-mismatch"
-        else
-          let a := runCase d tbl E false x
-          let b := runCase d tbl E true x
-          if a == b then a ++ " " ++ stats d tbl (E false) x else "oracle-miss"
+        else match uriConsistent preds tbl with
+        | some (i, v) => s!"uri-model-mismatch {i} {toHex v}"
+        | none =>
+          let a := runCase d preds tbl E false x
+          let b := runCase d preds tbl E true x
+          if a == b then a ++ " " ++ stats d preds tbl (E false) x else "oracle-miss"
       | _, _, _, _, _ => "bad-op"
-    | ["J", fl, es, ts, ps, _, x, tb] =>
+    | ["J", fl, es, ts, ps, pr, x, tb] =>
       match parseDesc fl es ts ps, parseHex x, parseTable tb with
-      | some d, some x, some tbl => judge d tbl x
+      | some d, some x, some tbl => judge d (parsePreds pr) tbl x
       | _, _, _ => "bad-op"
     | _ => "bad-op"
   ((), r)
